@@ -182,9 +182,9 @@ func checkProperty(id string, thorough, verbose bool, replayFile string, timeout
 		all = append(all, r.Obls...)
 	}
 	if timeout == 0 {
-		timeout = 10
+		timeout = 30
 		if thorough {
-			timeout = 60
+			timeout = 90
 		}
 	}
 	work := filepath.Join(verifDir, ".work", id)
